@@ -51,17 +51,43 @@ def run(chk):
         sysm = InjParamSystem(d, props, dprops)
         info = {"d": d, "N": N, "envs": nenv, "M": M, "ranks": [[m.ndim for m in p.mpos] for p in pts]}
         built = [p.build() for p in pts]
+        # variants: the target as a callable of the final state (a non-linear objective: its derivative depends on the state),
+        # control operations (integer steps, pre and post) through compute_gradient_and_dynamics
+        variant = ["plain", "plain", "callable-target", "controls", "controls+callable"][it % 5]
+        hist = c18.rand_history(rng, d2, 3, list(range(0, N + 1)), 0.1, 0.0, kinds=("int",), lo=-1, hi=1) if "controls" in variant else []
+        hist = [h for h in hist if not (h[1] and h[0] >= N)]          # a post-measurement control at the last step never acts
+        mk_ctrl = lambda: (c18.build_control(d, hist) if hist else None)
+        tfun = (lambda st: 2 * np.array(st).T + target) if "callable" in variant else None
+        info["variant"] = variant
+        info["controls"] = [(k, p_) for k, p_, _ in hist]
         try:
-            res = quiet(oqupy.state_gradient, system=sysm, initial_state=rho0.copy(), target_derivative=target.copy(),
-                        process_tensors=built, parameters=np.zeros((2 * N, M)), progress_type="silent")
+            if variant == "plain":
+                res = quiet(oqupy.state_gradient, system=sysm, initial_state=rho0.copy(), target_derivative=target.copy(),
+                            process_tensors=built, parameters=np.zeros((2 * N, M)), progress_type="silent")
+            elif variant == "callable-target":
+                res = quiet(oqupy.state_gradient, system=sysm, initial_state=rho0.copy(), target_derivative=tfun,
+                            process_tensors=built, parameters=np.zeros((2 * N, M)), progress_type="silent")
+            else:
+                gp, dyn_ = quiet(compute_gradient_and_dynamics, system=sysm, initial_state=rho0.copy(), target_derivative=tfun if tfun else target.copy(),
+                                 process_tensors=built, parameters=np.zeros((2 * N, M)), control=mk_ctrl(), progress_type="silent")
+                from oqupy.gradient import _chain_rule
+                pd_ = sysm.get_propagator_derivatives(0.1, np.zeros((2 * N, M)))
+                res = {"gradprop": gp, "dynamics": dyn_,
+                       "gradient": quiet(_chain_rule, adjoint_tensor=gp, dprop_dparam=pd_, propagators=sysm.get_propagators(0.1, np.zeros((2 * N, M))),
+                                         num_steps=N, num_parameters=M, progress_type="silent")}
         except Exception as ex:
-            chk.disagree("state_gradient raised", {"meta": info, "err": repr(ex)})
+            chk.search_cases += 1
+            chk.fail("gradient-raises", f"the gradient computation ({variant}) raises {ex!r}", info)
             continue
 
-        def Z(pr):
+        def Z(pr, tgt=None):
             dyn = quiet(oqupy.compute_dynamics, InjSystem(d, pr), initial_state=rho0.copy(), dt=0.1, num_steps=N,
-                        process_tensor=[p.build() for p in pts], progress_type="silent")
-            return np.sum(target.reshape(-1) * np.array(dyn.states[-1]).reshape(-1)), dyn
+                        process_tensor=[p.build() for p in pts], control=mk_ctrl(), progress_type="silent")
+            tg = target if tgt is None else tgt
+            return np.sum(tg.reshape(-1) * np.array(dyn.states[-1]).reshape(-1)), dyn
+        if tfun is not None:
+            # the derivative of the objective at the final state of the forward run is what every entry is contracted with
+            target = np.array(tfun(Z(props)[1].states[-1]))
         z0, dyn0 = Z(props)
         chk.search_cases += 1
         chk.count(f"envs{nenv}")
@@ -85,7 +111,7 @@ def run(chk):
                      "state_gradient differs from the derivative of the objective (objective re-evaluated with the half-step propagator replaced by "
                      "its derivative; exact integers)", info)
         # (iii) the adjoint tensors against the Coq model (few: 256 model evaluations per tensor)
-        if it < n_model and d2 * N <= 8:
+        if it < n_model and d2 * N <= 8 and variant == "plain":
             pl = coq_list([f"({mat_lit(a)}, {mat_lit(b)})" for a, b in props])
             for i in range(N):
                 exprs.append(f"grad_flat {d2} {coq_list([p.coq(N) for p in pts])} {pl} {vec_lit(rho0.reshape(-1))} {vec_lit(target.reshape(-1))} {N} {i}")
